@@ -667,7 +667,7 @@ impl Property for C03 {
     }
     fn runs(&self, tier: Tier) -> u64 {
         match tier {
-            Tier::Quick => 30_000,
+            Tier::Quick => 80_000,
             Tier::Thorough => 2_000_000,
         }
     }
